@@ -22,7 +22,8 @@ ASSUMPTIONS = ["instances are matched to epochs by their start cycle (at most on
                "g++-12 -O1 build of the working tree with harness-side shims"]
 FLOORS = {"epochs_checked": {"quick": 1200, "thorough": 20000}, "returns_to_earlier_key": {"quick": 250, "thorough": 4000},
           "instance_runs_compared": {"quick": 5000, "thorough": 80000}, "output_ticks_compared": {"quick": 1200, "thorough": 20000},
-          "unmatched_key_errors": {"quick": 3, "thorough": 50}, "default_to_default_key_changes": {"quick": 30, "thorough": 500}, "twin_switches": {"quick": 25, "thorough": 400}}
+          "unmatched_key_errors": {"quick": 3, "thorough": 50}, "default_to_default_key_changes": {"quick": 30, "thorough": 500}, "twin_switches": {"quick": 25, "thorough": 400},
+          "passthrough_branch_epochs": {"quick": 40, "thorough": 600}}
 BATCH = 20
 SOLO = (1001, 1002, 1003, 1004)
 
@@ -79,6 +80,10 @@ def gen_case12(rng, name, idx):
         for st in body:
             if st.op == "src":
                 st.kw["rel"] = 1
+        if not keyed and rng.random() < 0.12:
+            # a branch that RETURNS ITS PARAMETER: the switch output forwards the held input itself while this branch is selected
+            body = [S("", "RET", rng.choice(params))]
+            c.meta["passthrough_branch"] = 1
         c.graphs[f"fn{b}"] = body
     cases = ",".join(f"{k}:{spec}:{k - 1}" for k in (1, 2, 3))
     kw = dict(cases=cases)
@@ -397,5 +402,7 @@ def check_one(case, tr, reload, rec_uid, owner):
                     "output_ticks_compared": len(exp_out),
                     "default_to_default_key_changes": sum(1 for a, b in zip(epochs, epochs[1:])
                                                           if a["key"] not in (1, 2, 3) and b["key"] not in (1, 2, 3))}
+    res.counters["passthrough_branch_epochs"] = sum(1 for e in epochs if e["branch"] is not None and
+                                                    [st.op for st in case.graphs.get(f"fn{e['branch']}", [])] == ["RET"])
     res.nontrivial = len(epochs) >= 3 and returns >= 1
     return res
